@@ -193,7 +193,9 @@ def install():
             self.B_spacing = b_spacing
             self.nbh = len(g_function.bore_locations)
             self.bhe_type = bhe_type
-            self.bhe = SimpleNamespace(b=borehole, fluid=fluid, pipe=pipe, grout=grout, soil=soil)
+            # like the real GHE: the exchanger object carries the per-borehole mass flow derived from the system flow and the field's count
+            self.bhe = SimpleNamespace(b=borehole, fluid=fluid, pipe=pipe, grout=grout, soil=soil,
+                                       m_flow_borehole=(v_flow_system / len(g_function.bore_locations)) / 1000.0 * fluid.rho)
             self.gFunction = g_function
             self.sim_params = sim_params
             self.hourly_extraction_ground_loads = hourly_extraction_ground_loads
